@@ -182,6 +182,8 @@ pub fn run_check(replay: Option<Value>) -> i32 {
                         if shape == 0 {
                             // the same homogeneous system with states of size -1e9 (atol scaled alike)
                             jobs.push((mi, *m, fi, ti, ji, shape, false, -1e9f64));
+                            // ... and once with a binding step bound (max_step = span/40; coded as scale 2)
+                            jobs.push((mi, *m, fi, ti, ji, shape, false, 2.0f64));
                         }
                     }
                 }
@@ -190,7 +192,9 @@ pub fn run_check(replay: Option<Value>) -> i32 {
     }
     let outs = par_map(jobs.len(), |j| {
         let (mi, m, fi, ti, ji, shape, backward, scale) = jobs[j];
-        let key = format!("ladder:{}.{}.{}.{}{}{}{}", mi, fi, ti, ji, if shape == 1 { ".v" } else { "" }, if backward { ".b" } else { "" }, if scale != 1.0 { ".s" } else { "" });
+        let bound_steps = scale == 2.0;
+        let scale = if bound_steps { 1.0 } else { scale };
+        let key = format!("ladder:{}.{}.{}.{}{}{}{}", mi, fi, ti, ji, if shape == 1 { ".v" } else { "" }, if backward { ".b" } else { "" }, if bound_steps { ".m" } else if scale != 1.0 { ".s" } else { "" });
         if let Some(o) = &only {
             if *o != key {
                 return None;
@@ -224,6 +228,9 @@ pub fn run_check(replay: Option<Value>) -> i32 {
                 c.atol = crate::run::Tol::V(atolv.clone());
             }
             c.user_jac = ji == 0;
+            if bound_steps {
+                c.max_step = Some(fam.span / 40.0);
+            }
             let r = run(&p, &c);
             out.events += r.st.n_ode + r.st.n_jac;
             match &r.out {
@@ -317,7 +324,7 @@ pub fn run_check(replay: Option<Value>) -> i32 {
                 _ => viols.push(("outcome".into(), format!("k={:e}: run ended with {}", k, r.outcome_name()))),
             }
         }
-        let desc = json!({"key": key, "method": mname(m), "family": fam.name, "tol": tol, "jacobian": if ji == 0 { "user" } else { "finite-difference" }, "state_scale": scale, "direction": if backward { "backward (reflected)" } else { "forward" }, "tolerances": if shape == 1 { "per component (odd components: atol 1e4 times tighter)" } else { "scalar" }, "ladder": rows});
+        let desc = json!({"key": key, "method": mname(m), "family": fam.name, "tol": tol, "jacobian": if ji == 0 { "user" } else { "finite-difference" }, "state_scale": scale, "max_step": if bound_steps { "span/40" } else { "none" }, "direction": if backward { "backward (reflected)" } else { "forward" }, "tolerances": if shape == 1 { "per component (odd components: atol 1e4 times tighter)" } else { "scalar" }, "ladder": rows});
         for (c, msg) in viols {
             out.violations.push(Violation::new(&key, &c, msg, desc.clone()).with("method", mname(m)).with("family", fam.name.split('(').next().unwrap_or("")));
         }
@@ -334,7 +341,7 @@ pub fn run_check(replay: Option<Value>) -> i32 {
     // --- nonlinear problems: Robertson (mass invariant) and Van der Pol over a tolerance ladder
     let nl: Vec<(Prob, f64)> = vec![(robertson(), 40.0), (vdp(10.0), 20.0), (vdp(100.0), 200.0), (vdp(1000.0), 2000.0)];
     let rtols: Vec<f64> = vec![1e-1, 1e-2, 1e-3, 1e-4, 1e-5, 1e-6];
-    let dims = vec![dim("method", &MI.iter().map(|m| mname(*m)).collect::<Vec<_>>()), dim("problem", &nl.iter().map(|p| p.0.name.clone()).collect::<Vec<_>>()), dim("jacobian", &["user", "finite-difference"])];
+    let dims = vec![dim("method", &MI.iter().map(|m| mname(*m)).collect::<Vec<_>>()), dim("problem", &nl.iter().map(|p| p.0.name.clone()).collect::<Vec<_>>()), dim("jacobian", &["user", "finite-difference"]), dim("atol/rtol", &["problem default (1e-3; Robertson 1e-7)", "ten times looser"])];
     lattice(&mut rep, "nonlinear", &dims, only.as_deref(), |key, idx| {
         let m = MI[idx[0]];
         let (p, span) = &nl[idx[1]];
@@ -354,7 +361,7 @@ pub fn run_check(replay: Option<Value>) -> i32 {
         let mut errs: Vec<f64> = vec![];
         let mut viols: Vec<(String, String)> = vec![];
         for rtol in &rtols {
-            let atol = rtol * atol_factor(p);
+            let atol = rtol * atol_factor(p) * if idx[3] == 1 { 10.0 } else { 1.0 };
             let mut c = Cfg::new(m, 0.0, *span, &p.y0).tol(*rtol, atol);
             c.user_jac = idx[2] == 0;
             let r = run(p, &c);
